@@ -44,6 +44,21 @@ func (w *World) matches(c *Container, idx int, inv *Invocation) string {
 func (w *World) oracleC12Invocation(r *Request, inv *Invocation) {
 	c := r.C
 	who := fmt.Sprintf("pod %s container %s request %s %s", c.Pod.key(), c.ID[:8], r.ID, r.Cmd)
+	if !c.Tainted && len(c.Pod.CommonArgs) > 0 {
+		got := map[string]string{}
+		for _, kv := range strings.Split(inv.Args, ";") {
+			if part := strings.SplitN(kv, "=", 2); len(part) == 2 {
+				got[strings.TrimSpace(part[0])] = strings.TrimSpace(part[1])
+			}
+		}
+		for _, k := range sortedKeys(c.Pod.CommonArgs) {
+			if got[k] != c.Pod.CommonArgs[k] {
+				w.fail("C12.isolation", "common-args-missing", "%s: %s of %s on %s: the pod's common arg %s=%s did not reach this plugin (CNI_ARGS %q)", who, inv.Cmd, path.Base(inv.Plugin), inv.IfName, k, c.Pod.CommonArgs[k], inv.Args)
+				return
+			}
+		}
+		w.S.Stat("probe.common-args-at-network-" + fmt.Sprint(imin(r.addIdx, 3)))
+	}
 	switch inv.Cmd {
 	case "ADD":
 		if r.Cmd != "ADD" {
@@ -145,6 +160,24 @@ func (w *World) oracleC12RequestEnd(r *Request, killed bool) {
 	c := r.C
 	who := fmt.Sprintf("pod %s container %s request %s %s", c.Pod.key(), c.ID[:8], r.ID, r.Cmd)
 	ok := r.Code == 200
+	// "a repeated DEL succeeds without invoking anything", also when the DEL before it failed: a DEL that ran without
+	// injected fault and without plugin failure has consumed whatever was recorded for the container (readable or not)
+	if r.Cmd == "DEL" && !killed && !r.extFault && c.prevDelClean {
+		if r.invoked > 0 {
+			w.fail("C12.repeat-del", "repeated-del-invokes", "%s: the DEL before it ended without fault and without plugin failure, yet this DEL invoked %d plugin(s)", who, r.invoked)
+			return
+		}
+		if !ok {
+			w.fail("C12.repeat-del", "repeated-del-fails", "%s: the DEL before it ended without fault and without plugin failure (it consumed the recorded state, readable or not), yet this DEL fails: %s", who, strings.TrimSpace(string(r.Resp)))
+			return
+		}
+		w.S.Stat("probe.repeated-del-after-clean-del")
+		if c.Tainted {
+			w.S.Stat("probe.repeated-del-noop-after-unreadable-state")
+		}
+	}
+	c.prevDelClean = r.Cmd == "DEL" && !killed && !r.extFault && !r.pluginFailed &&
+		(ok || strings.Contains(string(r.Resp), "consume network info"))
 	if killed || r.extFault || c.Tainted {
 		// the daemon died under the request or an injected non-plugin fault hit it: the property's quantifier
 		// (plugin failures x request sequences) does not cover the outcome; only the per-invocation checks applied
